@@ -2,6 +2,7 @@ package workspace
 
 import (
 	"fmt"
+	"os"
 	"path/filepath"
 	"sort"
 	"strings"
@@ -432,6 +433,9 @@ func includePathsInOrder(basePath string, includes []ast.Include) []string {
 			sort.Strings(matches)
 			for _, match := range matches {
 				absMatch, _ := filepath.Abs(match)
+				if info, err := os.Stat(match); err == nil && info.IsDir() {
+					continue
+				}
 				if absMatch != "" && absMatch != basePath && !seen[absMatch] {
 					seen[absMatch] = true
 					resolved = append(resolved, absMatch)
